@@ -1,6 +1,9 @@
 package main
 
 import (
+	"runtime/debug"
+	"runtime/pprof"
+	"path/filepath"
 	"flag"
 	"fmt"
 	"os"
@@ -10,6 +13,7 @@ import (
 )
 
 func main() {
+	debug.SetGCPercent(400)
 	if len(os.Args) < 2 {
 		fmt.Fprintln(os.Stderr, "usage: govc <check|unit|list|ssa> ...")
 		os.Exit(2)
@@ -74,7 +78,7 @@ func main() {
 
 func solverCfg(verif, tier, tag string) *SolverCfg {
 	cfg := &SolverCfg{FirstTimeout: 3 * time.Second, FullTimeout: 20 * time.Second, Workers: 16,
-		WorkDir: fmt.Sprintf("%s/.work/%s-%d", verif, tag, os.Getpid())}
+		NoBatch: true, WorkDir: fmt.Sprintf("%s/govc-work/%s-%d", os.TempDir(), tag, os.Getpid())}
 	if tier == "thorough" {
 		cfg.FullTimeout = 60 * time.Second
 		cfg.Confirm = true
@@ -85,6 +89,11 @@ func solverCfg(verif, tier, tag string) *SolverCfg {
 // runUnits verifies the named units (substring match) and prints a report (developer command)
 func runUnits(repo, verif string, names []string, tier string, verbose, keep bool) int {
 	t0 := time.Now()
+	if pf := os.Getenv("GOVC_PROF"); pf != "" {
+		f, _ := os.Create(pf)
+		pprof.StartCPUProfile(f)
+		defer pprof.StopCPUProfile()
+	}
 	p, err := loadProgram(repo)
 	if err != nil {
 		fmt.Fprintln(os.Stderr, err)
@@ -95,7 +104,11 @@ func runUnits(repo, verif string, names []string, tier string, verbose, keep boo
 	}
 	fmt.Printf("loaded in %.1fs\n", time.Since(t0).Seconds())
 	p.loadSpecLib(verif)
-	var units []*Unit
+	if err := p.dumpGround(verif); err != nil {
+		fmt.Println("GROUND ERROR", err)
+	}
+	fmt.Printf("ground dump done at %.1fs\n", time.Since(t0).Seconds())
+	var tasks []Task
 	for _, k := range p.cs.Order {
 		match := len(names) == 0
 		for _, n := range names {
@@ -110,14 +123,17 @@ func runUnits(repo, verif string, names []string, tier string, verbose, keep boo
 		if ct.Inline && len(ct.Ensures) == 0 {
 			continue
 		}
-		u := p.verifyUnit(ct)
-		if u.Err != "" {
-			fmt.Printf("UNIT %s: ERROR %s\n", u.Name, u.Err)
-		}
-		units = append(units, u)
+		tasks = append(tasks, p.unitTasks(ct)...)
 	}
 	cfg := solverCfg(verif, tier, "unit")
-	all := discharge(cfg, units)
+	cfg.Keep = keep
+	cfg.NoSolve = os.Getenv("GOVC_NOSOLVE") != ""
+	all, units := p.runPipeline(cfg, tasks)
+	for _, u := range units {
+		if u.Err != "" {
+			fmt.Printf("UNIT %s%s: ERROR %s\n", u.Name, u.Suffix, u.Err)
+		}
+	}
 	bad := 0
 	sort.Slice(all, func(i, j int) bool { return all[i].Name < all[j].Name })
 	for _, o := range all {
@@ -125,7 +141,7 @@ func runUnits(repo, verif string, names []string, tier string, verbose, keep boo
 			bad++
 		}
 		if verbose || !o.ok() {
-			fmt.Printf("%-8s %-10s %6.2fs %7dB %s  (%s)\n", o.Status, o.Solver, o.Secs, o.SMTBytes, o.Name, o.Pos)
+			fmt.Printf("%-8s %-10s %6.2fs %7dB %s  (%s) %s\n", o.Status, o.Solver, o.Secs, o.SMTBytes, o.Name, o.Pos, filepath.Base(o.SMTFile))
 			if !o.ok() && verbose {
 				fmt.Println(indent(truncate(o.Output, 3000)))
 			}
